@@ -16,7 +16,7 @@ def configs(tier):
 def run(tier):
     return run_graphs(
         'C13', tier, FACTORY, configs(tier), keep={'meta'}, require_bound_hit=False,
-        single_outcome_ok=('setitem', 'update', 'updatekw', 'update2', 'update3', 'update_empty', 'popdef',
+        single_outcome_ok=('setitem', 'update', 'updatekw', 'update2', 'update3', 'update_empty', 'popdef', 'popsame',
                            'reopen', 'bad'),
         rule=('state = files + live handle dump; two families of graphs: keys {a,b} with 14 value kinds (int, float, NaN, '
               'inf, non-ASCII/non-BMP text, control characters, bool, None, nested list, nested dict, NumPy int/float/array, '
